@@ -112,6 +112,24 @@ theorem prefix_filter_keeps_node_checks (pfx : Str) (cs : List Check) (st : List
     · intro c hc; exact hb c (sub c hc)
     · intro c hc; exact hd c (sub c hc)
 
+/-- the passing check of an instance whose routing tag has a blank in front of the prefix -/
+def d27Check : Check :=
+  { node := "n1".toList, checkID := "service:web-1".toList, serviceID := "web-1".toList,
+    serviceName := "web".toList, status := "passing".toList, tags := [" urlprefix-/web".toList] }
+
+/-- **D27** (repaired): the filter of the code before the repair tested the tag as it stands. For an instance whose
+only routing tag has a blank in front of the prefix — a tag `routecmd.build` reads as a routing tag, since it trims —
+the passing check is dropped by that test, so the healthy, advertising instance is not healthy over the filtered
+list; with the repaired test (`hasTagPrefix`, trimmed) it is. -/
+theorem raw_prefix_test_drops_advertising_instance :
+    let c : Check := d27Check
+    hasTagPrefixRaw "urlprefix-".toList c = false ∧ hasTagPrefix "urlprefix-".toList c = true ∧
+    HealthyAt [c] ["passing".toList] false c.node c.serviceID ∧
+    ¬ HealthyAt ([c].filter (fun c => isNodeOrMaint c || hasTagPrefixRaw "urlprefix-".toList c))
+        ["passing".toList] false c.node c.serviceID ∧
+    HealthyAt (checksWithTagPrefix "urlprefix-".toList [c]) ["passing".toList] false c.node c.serviceID := by
+  decide
+
 /-- An instance none of whose checks carries the prefix (and none is a maintenance check) has no check left
 after the filter, hence is not healthy over the filtered list: untagged services never reach `makeConfig`. -/
 theorem untagged_dropped (pfx : Str) (cs : List Check) (st : List Str) (strict : Bool) (node id : Str)
